@@ -191,13 +191,22 @@ func vh_C07_proxy_wiring() {
 	}
 }
 
-//assume: C11.signout: backend logout URL not configured (the outgoing http.Get is outside the model); redirect director answers "/"
+//assume: C11.signout: the backend logout endpoint (http.Get) answers 200, answers 500 or refuses the connection; redirect director answers "/"
 
 // sign-out: the session is cleared before the success redirect; a failed clear is an error page
-// verif: unwind=5 strlen=8 also=C13
+// verif: unwind=5 strlen=8 also=C13,C19
 func vh_C11_signout() {
 	g := vNewGate()
 	g.prov.data = &providers.ProviderData{}
+	// backend logout at the identity provider: not configured, answering, failing, unreachable
+	switch ndChoice("backend-logout", 4) {
+	case 1:
+		g.prov.data.BackendLogoutURL = verifHTTPJSON(200, map[string]interface{}{}) + "?id_token_hint={id_token}"
+	case 2:
+		g.prov.data.BackendLogoutURL = verifHTTPJSON(500, map[string]interface{}{})
+	case 3:
+		g.prov.data.BackendLogoutURL = verifHTTPDown()
+	}
 	g.p.SignOut(g.rw, g.req)
 	verifAssert("C11.signout.clear-attempted", g.store.clearCalls >= 1)
 	loc := g.rw.Header()["Location"]
